@@ -602,10 +602,16 @@ def _mark_iso(report, fi, fn, ml, mark, accval, ind, short):
     flows = _refine_flows(fn)
     al = _aliases(fn)
     t_ok = flows.get(marked) == 'time'
-    child_lists = [k for k, v in flows.items() if v == 'space']
+    child_lists = set()
+    for k, v in flows.items():
+        if v == 'space':
+            child_lists.add(k)
+            asg = _assignments(fn, k)
+            if len(asg) == 1 and isinstance(asg[0].value, ast.Name):
+                child_lists.add(asg[0].value.id)  # k = y, a plain alias
     s_ok = False
     for n in ast.walk(fn):
-        if isinstance(n, ast.For) and text(n.iter) == marked:
+        if isinstance(n, ast.For) and _iter_base(n.iter) == marked:
             for m in ast.walk(n):
                 if isinstance(m, ast.Call) and isinstance(
                         m.func, ast.Attribute) and m.func.attr == 'extend' \
@@ -618,6 +624,17 @@ def _mark_iso(report, fi, fn, ml, mark, accval, ind, short):
                  construct=short + ': axis flow')
 
 
+def _iter_base(expr):
+    """the list a loop header walks: `sorted(X, key=...)` and `list(X)`
+    visit exactly the members of X (the visiting order is R-stale's
+    business), anything else is taken as written"""
+    while isinstance(expr, ast.Call) and text(expr.func) in (
+            'sorted', 'list') and len(expr.args) == 1 and all(
+                kw.arg in ('key', 'reverse') for kw in expr.keywords):
+        expr = expr.args[0]
+    return text(expr)
+
+
 def _refine_flows(fn):
     flows = {}
     for n in ast.walk(fn):
@@ -626,7 +643,7 @@ def _refine_flows(fn):
                 for m in ast.walk(s):
                     rc = refine_call(m)
                     if rc is not None and text(rc[1]) == n.target.id:
-                        flows[text(n.iter)] = AXNAME[rc[0]]
+                        flows[_iter_base(n.iter)] = AXNAME[rc[0]]
     return flows
 
 
